@@ -79,6 +79,10 @@ func Gen(p GenParams) *wire.Snap {
 		}
 		d.Flags = rng.Pick(r, uint64(0), 0, 4, 8, 0x7f, 1<<31, 1<<63, 1<<64-1, r.U64())
 		d.Transform = rng.Pick(r, "", "", "dupsort_hack_v1", genStr(r, 1+r.Intn(40)))
+		if r.Chance(1, 4) {
+			// name and transform lengths vary independently across the 1-/2-/3-byte length varint boundaries
+			d.Transform = genStr(r, rng.Pick(r, 126, 127, 128, 129, 300, 16383, 16384))
+		}
 		ne := 0
 		switch p.Class {
 		case "small":
